@@ -20,6 +20,7 @@ type Env struct {
 	old      *State
 	inOld    bool
 	bound    map[string]Val
+	loopEntry *State // state in which the loop under consideration was entered (for entry(...))
 	resolving map[string]bool
 	alias    map[string]string // contract identifier -> local of the code it is bound to (rename-tolerant binding, rename.go)
 }
@@ -414,6 +415,16 @@ func (e *Env) call(n *ast.CallExpr) Val {
 		e.inOld = true
 		v := e.tr(args[0])
 		e.inOld = save
+		return v
+	case "entry": // entry(e): the value of e when the current loop was entered (loop invariants only)
+		need(1)
+		if e.loopEntry == nil {
+			g.fail("entry(...) is only meaningful in a loop invariant")
+		}
+		saveCur, saveOld := e.cur, e.inOld
+		e.cur, e.inOld = e.loopEntry, false
+		v := e.tr(args[0])
+		e.cur, e.inOld = saveCur, saveOld
 		return v
 	case "implies":
 		need(2)
